@@ -159,7 +159,7 @@ def special_cases(rng):
       if len(p.rules) < before:
         out.append(('recursion-without-base-case:' + shape, p.text(), pr.query[0], sorted(rec_names)))
   # 8. functor applied to a predicate it does not depend on
-  for _ in range(3):
+  for _ in range(4):
     pr = c04.gen_case(rng)
     d = c04.deps_of(pr.hand.rules)
     cands = [x.name for x in pr.preds if x.name.startswith('P')]
@@ -173,6 +173,15 @@ def special_cases(rng):
     b = rng.choice([t for t in ['T0', 'T1', 'T2'] if t != a])
     text = pr.text() + 'Wrongly := %s(%s: %s);\n' % (f, a, b)
     out.append(('functor-on-non-dependency', text, 'Wrongly', a))
+    # the same with a value that itself reads the non-dependency (the argument is "known" only through the value)
+    readers = [t for t in cands if t != f and t != a and a in c04.reach(d, t)]
+    if readers:
+      b2 = rng.choice(readers)
+      out.append(('functor-on-non-dependency-read-by-value', pr.text() + 'Wrongly := %s(%s: %s);\n' % (f, a, b2), 'Wrongly', a))
+    else:
+      # build one: Reader reads the non-dependency
+      extra = 'Reader(x) :- %s(x);\n' % a
+      out.append(('functor-on-non-dependency-read-by-value', pr.text() + extra + 'Wrongly := %s(%s: Reader);\n' % (f, a), 'Wrongly', a))
   return out
 
 
